@@ -254,9 +254,21 @@ class CompositeFrontend(ConstrainedFrontend):
                 self._replace_children(old_solvers, new_solvers)
 
     def _store_child(self, ns, extra_names=frozenset(), invalidate_cache=True):
-        for v in ns.variables | extra_names:
+        names = ns.variables | extra_names
+        # the children filed under these names so far are replaced as a whole by ns (it was merged from, split off
+        # or branched from them)
+        replaced = {id(self._solvers[v]) for v in names if v in self._solvers and self._solvers[v] is not ns}
+        for v in names:
             # os = self._solvers[v]
             self._solvers[v] = ns
+        if replaced:
+            # a replaced child must not stay reachable through a variable that ns no longer mentions (e.g. one that
+            # simplification removed): it would remain part of this solver with an outdated copy of the constraints
+            stale = {v for v, child in self._solvers.items() if id(child) in replaced}
+            for v in stale:
+                del self._solvers[v]
+            if stale and hasattr(self, "_remove_cached"):
+                self._remove_cached(stale)
         if invalidate_cache:
             self._unchecked_solvers.add(ns)
 
